@@ -37,11 +37,14 @@ def compositions(n):
     return out
 
 
+CP_K, CP_PTS = 4.0, [[0.0, 3.0], [2.0, 1.0], [9.0, 6.0]]     # option "cp": a constant and the points of the lookup in one settings object
+
+
 def settings_options(call):
     if call[0] == "step":
-        return [None, "empty", "v1", "v2"]
+        return [None, "empty", "v1", "v2", "cp"]
     if call[0] == "steps":
-        return ["empty", "v1", "v2"]
+        return ["empty", "v1", "v2"] + (["cp"] if call[1] == 2 else [])
     return [None, "empty", "v1"]
 
 
@@ -50,19 +53,27 @@ def settings_body(opt):
         return None
     if opt == "empty":
         return {}
+    if opt == "cp":
+        return {SM: {"base": {"constants": {"k": CP_K}, "points": {"lk": [list(p) for p in CP_PTS]}}}}
     return {SM: {"base": {"constants": {"k": V[opt]}}}}
 
 
 def reference(start, stop, dt, switches):
-    """switches: list of (grid index, value): k takes the value from that grid point on"""
+    """switches: list of (grid index, value): k takes the value from that grid point on; value "cp" = k and the lookup points together"""
     spec = srv.ref_spec(start, stop, dt)
     from fractions import Fraction
     s, d = Fraction(str(start)), Fraction(str(dt))
     keq = ["num", 2.0]
+    geq = spec["elements"]["g"]["eq"]
     for idx, val in switches:
         thr = float(s + idx * d - d / 2)
+        if val == "cp":
+            spec["points"]["lk_cp"] = [list(p) for p in CP_PTS]
+            geq = ["if", ["bin", ">=", ["time"], ["num", thr]], ["lookup", ["time"], "lk_cp"], geq]
+            val = CP_K
         keq = ["if", ["bin", ">=", ["time"], ["num", thr]], ["num", val], keq]
     spec["elements"]["k"] = {"kind": "converter", "eq": keq}
+    spec["elements"]["g"] = {"kind": "converter", "eq": geq}
     return refsd.RefModel(spec), refsd.grid(start, stop, dt)
 
 
@@ -82,6 +93,8 @@ def run_rest_session(start, n, dt, comp, opts):
         sb = settings_body(opt)
         if opt in V:
             switches.append((len(steps), V[opt]))
+        elif opt == "cp":
+            switches.append((len(steps), "cp"))
         if call[0] == "step":
             r = client.post("/%s/run-step" % iid) if sb is None else client.post("/%s/run-step" % iid, json={"settings": sb})
             if r.status_code != 200:
@@ -298,8 +311,10 @@ def jobs(tier):
             for comp in compositions(n + 1):
                 optlists = [settings_options(c) for c in comp]
                 for opts in itertools.product(*optlists):
-                    nondefault = sum(1 for o in opts if o in V)
+                    nondefault = sum(1 for o in opts if o in V or o == "cp")
                     if n >= 3 and nondefault > 2:
+                        continue
+                    if list(opts).count("cp") > 1 or (n >= 3 and "cp" in opts and nondefault > 1 and dt not in (1, 0.5)):
                         continue
                     if tier == "thorough" and n >= 4 and (nondefault > 1 or sum(1 for o in opts if o == "empty") > 2):
                         continue
@@ -333,7 +348,7 @@ def run(ctx):
     ctx.finish({
         "evaluations": len(js), "distinct_nontrivial": len(js),
         "rule": "run specs start in {0,1} x dt in {1,.5,.25,.1} plus (start,dt) in {(-2,1), (-1,.5), (-3,1)} x N <= %d steps x all compositions of the N+1 grid points into run-step / run-steps(k) / "
-                "stream-steps(rest) x per-call settings over {no body, {}, k:=5, k:=0.5}; plus per run spec the batch run in df/dict/json, REST /run and the "
+                "stream-steps(rest) x per-call settings over {no body, {}, k:=5, k:=0.5, k:=4 together with new lookup points}; plus per run spec the batch run in df/dict/json, REST /run and the "
                 "Python session in nested/flat steps and all session_results modes" % (3 if ctx.tier == "quick" else 5),
         "samples": [list(map(str, j)) for j in js[:3]],
     }, assumptions=["stream-steps is the last call of a composition", "one scenario per session (two scenarios: C16)"])
